@@ -121,7 +121,8 @@ def run_cases(cases, rep, worker='text_worker', label=None, shape=None, vm_sampl
 def c_comment(c, more):
     def dec(v):
         return {'lines': dss(v[0]), 'r1': ds(v[1]), 'lines_after': dss(v[0]), 'r2': ds(v[1]),
-                'lines_ext': dss(v[2]), 'r3': ds(v[3]), 'in_list': ds(v[4]), 'direct': dss(v[5]),
+                'lines_ext': dss(v[2]), 'r3': ds(v[3]), 'plus_lines': dss(v[2]), 'in_list': ds(v[4]), 'direct': dss(v[5]),
+                # (`comment + x`: concatenation of the lines, like append)
                 # `+=` is append on the same object (TextGen.iadd = append in the model)
                 # a comment as the whole contents of a namespace: head line, the rendered comment, tail line (or the one-liner)
                 'in_namespace': ('namespace My::Reserved {\n' + ds(v[1]) + '} // namespace My::Reserved\n') if dss(v[0]) else 'namespace My::Reserved {}\n',
